@@ -189,6 +189,9 @@ func genSigOps(r *rand.Rand, n int) []string {
 		}
 		alg := sigAlgs[r.Intn(len(sigAlgs))]
 		data := randBytes(r, msgLen(r, i%40 == 0))
+		if i%9 == 4 { // sizes at which a buffered / pre-hashed implementation would change gear
+			data = randBytes(r, []int{4096, 4097, 8191, 8192, 8193, 16384, 16385, 32768}[r.Intn(8)])
+		}
 		after := "same"
 		switch r.Intn(6) {
 		case 0:
